@@ -215,12 +215,18 @@ func genHeader(r *Rand, valid bool) (qnet.Header, string) {
 			if h.Magic == qnet.Magic {
 				h.Magic = 0x42dead43
 			}
-			if r.Bool() { // little-endian magic: the classic mistake
+			switch r.Intn(3) {
+			case 0: // little-endian magic: the classic mistake
 				h.Magic = 0x42adde42
+			case 1: // right in three bytes out of four
+				h.Magic = qnet.Magic ^ (uint32(1+r.Intn(255)) << (8 * uint(r.Intn(4))))
 			}
 			why = "magic"
 		case 1:
 			h.Version = uint16(1 + r.Intn(65535))
+			if r.Bool() { // wrong in one byte only, or in one bit
+				h.Version = uint16(r.Pick(0x0001, 0x0100, 0x0200, 0x8000, 0xff00, 0x00ff, 0xffff, 0x0101, 0x0080))
+			}
 			why = "version"
 		case 2:
 			h.Type = 0
